@@ -318,6 +318,62 @@ def normalize(raw):
     if fmap:
         log["fields"] = fmap
         _rename_fields(raw, fmap)
+    # ---- several fields of a struct grouped into one field of a new private struct (`current_key`, `merged_value`
+    # -> `current: MergedEntry { key, value }`): places `x.current.key` are flattened back to `x.current_key`
+    cur = shape_of(raw)
+    have = {a_["path"]: a_ for a_ in raw["adts"]}
+    gmap = {}
+    for path, fields in cur["adts"].items():
+        pf = pin["adts"].get(path)
+        if pf is None:
+            continue
+        pn, cn = {n for n, t in pf}, {n for n, t in fields}
+        gone = [(n, t) for n, t in pf if n not in cn]
+        came = [(n, t) for n, t in fields if n not in pn]
+        if len(came) != 1 or len(gone) < 2:
+            continue
+        f, sty = came[0]
+        sdef = have.get(sty)
+        if sdef is None or sty in pin["adts"] or sdef["kind"] != "Struct" or not sdef["variants"]:
+            continue
+        sf = [(x["name"], x["ty"]) for x in sdef["variants"][0]["fields"]]
+        if [t for n, t in sf] != [t for n, t in gone]:
+            continue
+        gmap[(path, f)] = (sty, {sn: gn for (sn, st_), (gn, gt) in zip(sf, gone)}, {gn: gt for gn, gt in gone})
+    if gmap:
+        raw["_grouped"] = [[p, f, sty, m, tys] for (p, f), (sty, m, tys) in gmap.items()]
+        def flat(o):
+            if isinstance(o, dict):
+                if "l" in o and isinstance(o.get("p"), list):
+                    p = o["p"]
+                    j = 0
+                    while j + 1 < len(p):
+                        a_, b_ = p[j], p[j + 1]
+                        if isinstance(a_, dict) and isinstance(b_, dict) and (a_.get("adt"), a_.get("name")) in gmap:
+                            sty, m, tys = gmap[(a_.get("adt"), a_.get("name"))]
+                            if b_.get("adt") == sty and b_.get("name") in m:
+                                n = m[b_["name"]]
+                                p[j:j + 2] = [{"f": a_.get("f"), "ty": tys[n], "name": n, "adt": a_["adt"]}]
+                                continue
+                        j += 1
+                    return
+                for k, v in o.items():
+                    if k not in ("span", "fn"):
+                        flat(v)
+            elif isinstance(o, list):
+                for v in o:
+                    flat(v)
+        for b in raw["bodies"]:
+            flat(b["blocks"])
+        for a_ in raw["adts"]:
+            for (path, f), (sty, m, tys) in gmap.items():
+                if a_["path"] == path and a_["variants"]:
+                    fl = a_["variants"][0]["fields"]
+                    k = [i for i, x in enumerate(fl) if x["name"] == f]
+                    if k:
+                        proto = fl[k[0]]
+                        fl[k[0]:k[0] + 1] = [dict(proto, name=n, ty=t) for n, t in tys.items()]
+        log["grouped_fields"] = {f"{p}.{f}": sorted(m.values()) for (p, f), (sty, m, tys) in gmap.items()}
     # ---- parameters of a function declared in another order (same names): the body's argument locals, the `inputs`
     # of its signature and the argument lists of every call to it are permuted back to the pinned order
     perms = {}
@@ -436,3 +492,40 @@ def _rename_fns(raw, fn_map):
     walk(raw["bodies"])
     walk(raw["fns"])
     walk(raw["unsafety"])
+
+
+def reflatten(raw):
+    """places `x.group.sub` -> `x.field` again, after helpers were spliced and references forwarded (the accesses made
+    inside methods of the grouping struct only become paths from the outer struct at that point)"""
+    gl = raw.get("_grouped")
+    if not gl:
+        return 0
+    gmap = {(p, f): (sty, m, tys) for p, f, sty, m, tys in gl}
+    n = 0
+
+    def flat(o):
+        nonlocal n
+        if isinstance(o, dict):
+            if "l" in o and isinstance(o.get("p"), list):
+                p = o["p"]
+                j = 0
+                while j + 1 < len(p):
+                    a_, b_ = p[j], p[j + 1]
+                    if isinstance(a_, dict) and isinstance(b_, dict) and (a_.get("adt"), a_.get("name")) in gmap:
+                        sty, m, tys = gmap[(a_.get("adt"), a_.get("name"))]
+                        if b_.get("adt") == sty and b_.get("name") in m:
+                            nm = m[b_["name"]]
+                            p[j:j + 2] = [{"f": a_.get("f"), "ty": tys[nm], "name": nm, "adt": a_["adt"]}]
+                            n += 1
+                            continue
+                    j += 1
+                return
+            for k, v in o.items():
+                if k not in ("span", "fn"):
+                    flat(v)
+        elif isinstance(o, list):
+            for v in o:
+                flat(v)
+    for b in raw["bodies"]:
+        flat(b["blocks"])
+    return n
